@@ -347,3 +347,28 @@ def known(fid):
     """True iff `fid` is listed as an open known finding (the obligation is then proved on the complement of the
     finding's input class).  During native replay it is always False, so a witness of the finding still fails."""
     return False
+
+
+def urlsafe_text(b):
+    """RFC 7797 section 5.2 URL-safe payload: one or more of a-z A-Z 0-9 - _ ~"""
+    import re as _re
+    try:
+        t = b.decode("utf-8") if isinstance(b, bytes) else b
+    except UnicodeDecodeError:
+        return False
+    return bool(_re.match("^[a-zA-Z0-9-_~]+$", t)) and not t.endswith("\n")
+
+
+def py_urlsafe_match(b):
+    """What joserfc's RFC 7797 attach test computes: re.match("^[a-zA-Z0-9-_~]+$") on the UTF-8 text
+    (Python's `$` also matches before one trailing newline)."""
+    import re as _re
+    try:
+        t = b.decode("utf-8") if isinstance(b, bytes) else b
+    except UnicodeDecodeError:
+        return False
+    return bool(_re.match("^[a-zA-Z0-9-_~]+$", t))
+
+
+def ascii_only(b):
+    return all(c < 128 for c in b) if isinstance(b, bytes) else all(ord(c) < 128 for c in b)
